@@ -9,7 +9,9 @@ import LncModel.Cipher
   header of record j, unit 2j+1 its body); `junk` is any other byte (flipped,
   injected, truncated garbage, handshake bytes).  The adversary's output is an
   arbitrary list of such bytes — that subsumes flip, truncate, drop, duplicate,
-  reorder, replay, reflect and inject.
+  reorder, replay, reflect and inject — with `pause` marks anywhere in it: the
+  relay controls timing too, and a reader with a read deadline sees a timeout
+  at that point of the stream and may ask again.
 
   AEAD idealisation: a run of `n` bytes opens under (dir, use) iff it is
   exactly bytes 0..n-1 of the honest unit (dir, use) and `n` is that unit's
@@ -20,6 +22,8 @@ namespace Lnc.Mailbox.Record
 inductive SByte
   | hon (dir use off : Nat)
   | junk
+  | pause   -- no byte: here the transport reports a timeout once (a read deadline expires while the
+            -- relay holds the rest of the stream back); the next read goes on behind it
 deriving Repr, DecidableEq
 
 def macSize : Nat := 16
@@ -51,11 +55,22 @@ inductive Res
   | err                   -- authentication failure or short read
 deriving Repr, DecidableEq
 
+/-- io.ReadFull of `n` bytes meets a timeout after `i < n` bytes: the index of the first pause mark
+    among the first `n` elements of the wire -/
+def pauseAt (n : Nat) (wire : List SByte) : Option Nat :=
+  (wire.take n).findIdx? (fun b => b == .pause)
+
 /-- one ReadMessage call on the remaining wire; `recs` are the plaintexts the
-    authentic peer wrote in this direction.  Returns result, reader', wire'. -/
+    authentic peer wrote in this direction.  Returns result, reader', wire'.
+    A read that fails after part of a record was consumed latches the reader
+    (noise.go after repair 98daed6): a timeout before the first byte of a
+    header leaves it as it was. -/
 def readMessage (recs : List Bytes) (r : Reader) (wire : List SByte) : Res × Reader × List SByte :=
   if r.failed then (.err, r, wire)
-  else if wire.length < hdrLen then (.err, r, [])            -- io.ReadFull: unexpected EOF
+  else match pauseAt hdrLen wire with
+  | some i => (.err, { r with failed := decide (0 < i) }, wire.drop (i + 1))   -- timeout inside / before the header
+  | none =>
+  if wire.length < hdrLen then (.err, { r with failed := decide (0 < wire.length) }, [])   -- io.ReadFull: unexpected EOF
   else if !opens recs r.dir r.use (wire.take hdrLen) then
     (.err, { r with use := r.use + 1, failed := true }, wire.drop hdrLen)
   else
@@ -63,7 +78,10 @@ def readMessage (recs : List Bytes) (r : Reader) (wire : List SByte) : Res × Re
     match recs[r.use / 2]? with
     | none => (.err, { r with use := r.use + 1, failed := true }, wire.drop hdrLen)
     | some p =>
-      if (wire.drop hdrLen).length < p.length + macSize then (.err, { r with use := r.use + 1 }, [])
+      match pauseAt (p.length + macSize) (wire.drop hdrLen) with
+      | some i => (.err, { r with use := r.use + 1, failed := true }, (wire.drop hdrLen).drop (i + 1))   -- timeout before / inside the body
+      | none =>
+      if (wire.drop hdrLen).length < p.length + macSize then (.err, { r with use := r.use + 1, failed := true }, [])
       else if opens recs r.dir (r.use + 1) ((wire.drop hdrLen).take (p.length + macSize)) then
         (.ok (r.use / 2), { r with use := r.use + 2 }, (wire.drop hdrLen).drop (p.length + macSize))
       else
